@@ -20,6 +20,7 @@ type evalOpts struct {
 	ghost  map[string]Value
 	binds  []map[string]Value // macro parameter bindings (innermost last)
 	noOld  bool
+	pol    int // +1: the expression is a proof goal, -1: an assumption, 0: unknown polarity
 }
 
 func (o *evalOpts) lookupBind(name string) (Value, bool) {
@@ -103,6 +104,11 @@ func (x *Exec) evalExpr(fr *frame, st *State, e ast.Expr, opts *evalOpts) Value 
 	case *ast.UnaryExpr:
 		if n.Op == token.AND {
 			return x.evalLValue(fr, st, n.X, opts)
+		}
+		if n.Op == token.NOT {
+			on := *opts
+			on.pol = -opts.pol
+			return Sc{T: mkNot(x.asBool(x.evalExpr(fr, st, n.X, &on)))}
 		}
 		v := x.evalExpr(fr, st, n.X, opts)
 		switch n.Op {
@@ -480,6 +486,11 @@ func (x *Exec) evalBinary(fr *frame, st *State, n *ast.BinaryExpr, opts *evalOpt
 	case token.LOR:
 		return Sc{T: mkOr(x.asBool(x.evalExpr(fr, st, n.X, opts)), x.asBool(x.evalExpr(fr, st, n.Y, opts)))}
 	}
+	if opts.pol != 0 {
+		oz := *opts
+		oz.pol = 0
+		opts = &oz
+	}
 	a := x.evalExpr(fr, st, n.X, opts)
 	b := x.evalExpr(fr, st, n.Y, opts)
 	ua, isUa := a.(Untyped)
@@ -616,6 +627,72 @@ func (x *Exec) evalCall(fr *frame, st *State, n *ast.CallExpr, opts *evalOpts) V
 		x.forceInline = true
 		defer func() { x.forceInline = save }()
 		return x.evalExpr(fr, st, n.Args[0], opts)
+	case "all", "any", "xorall", "orall":
+		// all(i, lo, hi, body): finite expansion with i bound to the constants lo..hi
+		id, ok := n.Args[0].(*ast.Ident)
+		if !ok || len(n.Args) != 4 {
+			bail("%s(i, lo, hi, body)", name)
+		}
+		lo := arg(1).(Untyped).V.(*big.Int).Int64()
+		hi := arg(2).(Untyped).V.(*big.Int).Int64()
+		var acc Value
+		var bools []T
+		for k := lo; k <= hi; k++ {
+			o2 := *opts
+			o2.binds = append(append([]map[string]Value(nil), opts.binds...), map[string]Value{id.Name: Untyped{big.NewInt(k)}})
+			v := x.evalExpr(fr, st, n.Args[3], &o2)
+			switch name {
+			case "all", "any":
+				bools = append(bools, x.asBool(v))
+			default:
+				sv, isSc := v.(Sc)
+				if !isSc {
+					bail("%s body must be a bit-vector", name)
+				}
+				sv = Sc{T: x.vc.def("f", sv.T), Signed: sv.Signed}
+				if acc == nil {
+					acc = sv
+				} else {
+					op := "bvxor"
+					if name == "orall" {
+						op = "bvor"
+					}
+					acc = Sc{T: bvbin(op, acc.(Sc).T, sv.T), Signed: sv.Signed}
+				}
+			}
+		}
+		switch name {
+		case "all":
+			return Sc{T: mkAnd(bools...)}
+		case "any":
+			return Sc{T: mkOr(bools...)}
+		}
+		return acc
+	case "bit":
+		// bit(bb, i): bit i of bb; with a constant index this is an extract (keeps terms syntactically small)
+		bbv := arg(0)
+		iv := arg(1)
+		bs, ok := bbv.(Sc)
+		if !ok {
+			bail("bit(bb, i): bb must be a bit-vector")
+		}
+		if u, isU := iv.(Untyped); isU {
+			k := u.V.(*big.Int).Int64()
+			return Sc{T: T{fmt.Sprintf("(= ((_ extract %d %d) %s) #b1)", k, k, bs.S), BoolSort}}
+		}
+		is := iv.(Sc)
+		if c, isC := constVal(is.T); isC && int(c) < bs.W() {
+			return Sc{T: T{fmt.Sprintf("(= ((_ extract %d %d) %s) #b1)", c, c, bs.S), BoolSort}}
+		}
+		// symbolic index: a case analysis over extracts, so that the term collapses to a single
+		// extract once the index becomes known (shift-and-mask forms defeat the solvers' rewriters)
+		bbn := x.vc.def("bb", bs.T)
+		in := x.vc.def("bi", is.T)
+		var alts []T
+		for k := 0; k < bs.W(); k++ {
+			alts = append(alts, mkAnd(mkEq(in, litBig(in.W(), big.NewInt(int64(k)))), T{fmt.Sprintf("(= ((_ extract %d %d) %s) #b1)", k, k, bbn.S), BoolSort}))
+		}
+		return Sc{T: mkOr(alts...)}
 	case "iter":
 		// iter(N): the hidden counter of range loop N of the current function
 		k := int(arg(0).(Untyped).V.(*big.Int).Int64())
@@ -632,9 +709,37 @@ func (x *Exec) evalCall(fr *frame, st *State, n *ast.CallExpr, opts *evalOpts) V
 		}
 		bail("iter(%d): no range counter available here", k)
 	case "implies":
-		return Sc{T: mkImplies(x.asBool(arg(0)), x.asBool(arg(1)))}
+		on := *opts
+		on.pol = -opts.pol
+		return Sc{T: mkImplies(x.asBool(x.evalExpr(fr, st, n.Args[0], &on)), x.asBool(arg(1)))}
+	case "each":
+		// each(i, lo, hi, body): universal quantification over lo..hi.  As a proof goal it is proved for
+		// one arbitrary (fresh) i; anywhere else it is expanded into the finite conjunction.
+		id, ok := n.Args[0].(*ast.Ident)
+		if !ok || len(n.Args) != 4 {
+			bail("each(i, lo, hi, body)")
+		}
+		lo := arg(1).(Untyped).V.(*big.Int).Int64()
+		hi := arg(2).(Untyped).V.(*big.Int).Int64()
+		if opts.pol > 0 {
+			iv := Sc{T: x.vc.input("each."+id.Name, bvSort(64)), Signed: true}
+			o2 := *opts
+			o2.binds = append(append([]map[string]Value(nil), opts.binds...), map[string]Value{id.Name: iv})
+			body := x.asBool(x.evalExpr(fr, st, n.Args[3], &o2))
+			rng := mkAnd(bvcmp("bvsle", lit(64, uint64(lo)), iv.T), bvcmp("bvsle", iv.T, lit(64, uint64(hi))))
+			return Sc{T: mkImplies(rng, body)}
+		}
+		var conj []T
+		for k := lo; k <= hi; k++ {
+			o2 := *opts
+			o2.binds = append(append([]map[string]Value(nil), opts.binds...), map[string]Value{id.Name: Untyped{big.NewInt(k)}})
+			conj = append(conj, x.asBool(x.evalExpr(fr, st, n.Args[3], &o2)))
+		}
+		return Sc{T: mkAnd(conj...)}
 	case "iff":
-		return Sc{T: mkEq(x.asBool(arg(0)), x.asBool(arg(1)))}
+		oz := *opts
+		oz.pol = 0
+		return Sc{T: mkEq(x.asBool(x.evalExpr(fr, st, n.Args[0], &oz)), x.asBool(x.evalExpr(fr, st, n.Args[1], &oz)))}
 	case "ite":
 		c := x.asBool(arg(0))
 		a, b := x.coercePair(arg(1), arg(2))
@@ -695,6 +800,9 @@ func (x *Exec) evalCall(fr *frame, st *State, n *ast.CallExpr, opts *evalOpts) V
 		b := map[string]Value{}
 		for i, p := range m.Params {
 			b[p] = arg(i)
+		}
+		if x.isOpaque(name) {
+			return x.opaqueApp(fr, st, m, b, opts)
 		}
 		o2 := *opts
 		o2.binds = append(append([]map[string]Value(nil), opts.binds...), b)
@@ -928,4 +1036,105 @@ func rootIdent(e ast.Expr) string {
 			return ""
 		}
 	}
+}
+
+func (x *Exec) isOpaque(name string) bool {
+	if x.fc == nil {
+		return false
+	}
+	for _, o := range x.fc.Opaque {
+		if o == name {
+			return true
+		}
+	}
+	return false
+}
+
+// opaqueApp renders a macro application as an uninterpreted function of the scalar leaves of its
+// arguments (the body is evaluated once, in a scratch context, only to learn the result sort).
+func (x *Exec) opaqueApp(fr *frame, st *State, m *Macro, b map[string]Value, opts *evalOpts) Value {
+	var args []T
+	for _, p := range m.Params {
+		v := b[p]
+		if u, ok := v.(Untyped); ok {
+			v = x.coerceTo(u, bvSort(64), true)
+		}
+		leaves(v, p, func(path string, s Sc) { args = append(args, s.T) })
+	}
+	uf := "uf." + m.Name
+	info, ok := x.ufs[uf]
+	if !ok {
+		// learn the sort from a throw-away evaluation
+		// (evaluated once in the unit's own context only to learn the result sort; the definitions it
+		// leaves behind are unused)
+		saveFc := x.fc
+		x.fc = nil
+		o2 := *opts
+		o2.binds = append(append([]map[string]Value(nil), opts.binds...), b)
+		res := x.evalExpr(fr, st, m.Body, &o2)
+		x.fc = saveFc
+		rs, isSc := res.(Sc)
+		if !isSc {
+			bail("opaque macro %s must be scalar", m.Name)
+		}
+		var sorts []string
+		for _, a := range args {
+			sorts = append(sorts, a.Sort)
+		}
+		x.vc.decls = append(x.vc.decls, fmt.Sprintf("(declare-fun %s (%s) %s)", uf, strings.Join(sorts, " "), rs.Sort))
+		info = ufInfo{rs.Sort, rs.Signed, len(args)}
+		if x.ufs == nil {
+			x.ufs = map[string]ufInfo{}
+		}
+		x.ufs[uf] = info
+	}
+	if info.n != len(args) {
+		bail("opaque macro %s applied to arguments of a different shape", m.Name)
+	}
+	// memo through control-flow merges: the last application is remembered in the state together
+	// with its argument leaves; both are merged alike at joins, so an application to syntactically
+	// the same (merged) leaves is the (merged) remembered value -- plain congruence, made syntactic.
+	if x.trackObj == nil {
+		x.trackObj = map[string]*Object{}
+	}
+	tobj := x.trackObj[uf]
+	if tobj == nil {
+		tobj = x.newObject("track:"+m.Name, "track", nil)
+		x.trackObj[uf] = tobj
+	}
+	if cur, ok := st.mem[tobj].(Tup); ok && len(cur.Elems) == len(args)+1 {
+		same := true
+		for i, a := range args {
+			if cur.Elems[i+1].(Sc).S != a.S {
+				same = false
+				break
+			}
+		}
+		if same {
+			return cur.Elems[0]
+		}
+	}
+	res := Sc{T: x.vc.def(m.Name, app(uf, info.sort, args...)), Signed: info.signed}
+	tv := Tup{Elems: []Value{res}}
+	for _, a := range args {
+		tv.Elems = append(tv.Elems, Sc{T: a})
+	}
+	st.mem[tobj] = tv
+	return res
+}
+
+type ufInfo struct {
+	sort   string
+	signed bool
+	n      int
+}
+
+// evalGoalClause evaluates a clause that is about to become a proof goal (positive polarity).
+func (x *Exec) evalGoalClause(fr *frame, st *State, c Clause, opts *evalOpts) T {
+	o := evalOpts{}
+	if opts != nil {
+		o = *opts
+	}
+	o.pol = 1
+	return x.evalBoolClause(fr, st, c, &o)
 }
